@@ -149,7 +149,11 @@ def thaw(v):
     return _thaw(v)
 
 
-def build_feature(f: dict) -> Feature:
+def build_feature(f: dict, style: int = 0) -> Feature:
+    """style 0: children first, then Relation(parent, children, ..) + add_relation (what the readers mostly do);
+    style 1: the empty relation is registered first and filled with Relation.add_child, children created with
+    Feature(parent=...); style 2: relation appended to `relations`, children appended to `children`, parents
+    assigned by hand (what XMLReader does).  All three end in the same object graph."""
     kwargs = {}
     if f.get("fcard") is not None:
         kwargs["feature_cardinality"] = Cardinality(f["fcard"][0], f["fcard"][1])
@@ -158,13 +162,28 @@ def build_feature(f: dict) -> Feature:
     for a in f.get("attrs", []):
         feature.add_attribute(build_attr(a))
     for r in f["rels"]:
-        children = [build_feature(c) for c in r["children"]]
-        feature.add_relation(Relation(feature, children, r["min"], r["max"]))
+        if style == 1:
+            rel_ = Relation(feature, [], r["min"], r["max"])
+            feature.add_relation(rel_)
+            for c in r["children"]:
+                child = build_feature(c, style)
+                child.parent = feature
+                rel_.add_child(child)
+        elif style == 2:
+            rel_ = Relation(feature, [], r["min"], r["max"])
+            feature.relations.append(rel_)
+            for c in r["children"]:
+                child = build_feature(c, style)
+                rel_.children.append(child)
+                child.parent = feature
+        else:
+            children = [build_feature(c, style) for c in r["children"]]
+            feature.add_relation(Relation(feature, children, r["min"], r["max"]))
     return feature
 
 
 def build(model: dict) -> FeatureModel:
-    root = build_feature(model["root"])
+    root = build_feature(model["root"], int(model.get("build_style", 0)))
     return FeatureModel(root, [build_constraint(c, share=bool(model.get("share_nodes"))) for c in model.get("ctcs", [])])
 
 
